@@ -265,6 +265,20 @@ def ev_hash(e):
     return hashlib.md5(json.dumps(d, sort_keys=True).encode()).hexdigest()
 
 
+def first_events_not(path, reset_ev):
+    """trace ids whose first event is not the reset event of the (stateful) trace specification"""
+    seen, bad = set(), []
+    with open(path) as f:
+        for line in f:
+            e = json.loads(line)
+            t = e.get("t")
+            if t not in seen:
+                seen.add(t)
+                if e.get("ev") != reset_ev:
+                    bad.append((t, e.get("ev")))
+    return bad
+
+
 def trace_stats(paths, is_nontrivial=None, max_samples=3):
     """count events, traces and distinct non-trivial events of the trace files"""
     n_ev = 0
@@ -309,7 +323,10 @@ class Stage:
     """
 
     def __init__(self, family, mc, parts, trace, nontrivial=None, race=False, driver_env=None, gen_timeout=3600,
-                 behaviours=None):
+                 behaviours=None, reset_ev=None):
+        # reset_ev: the event every trace of a stateful trace specification must begin with (the specification
+        # skips lines until it has seen one); a trace that begins otherwise would not be judged at all
+        self.reset_ev = reset_ev
         self.family, self.mc, self.parts, self.trace = family, mc, parts, trace
         # behaviours: {tier: [(Gen spec, cfg, num walks, depth)]} - TLC -simulate output replayed on the real code
         self.behaviours = behaviours or {}
@@ -424,6 +441,13 @@ def run_check(prop, stages, tier, seed, assumptions, rule, replay=None):
         if drift:
             cov["spec_drift_outside_listed_properties"] = drift
             log("  note: helper behaviour differs from Helpers.tla (no verdict): %s" % drift)
+        for job, viols, n in results:
+            st = job[1]
+            if st.reset_ev:
+                bad = first_events_not(job[6], st.reset_ev)
+                if bad:
+                    raise Infra("driver %s emitted traces that do not begin with %s (they would not be judged): %s"
+                                % (st.family, st.reset_ev, bad[:5]))
         n_ev, n_tr, n_dist, samples = trace_stats(traces, stages[0].nontrivial)
         cov["evaluations"] = n_ev
         cov["traces_validated_against_impl"] = n_tr
